@@ -2231,7 +2231,7 @@ vbi_decode_teletext(vbi_decoder *vbi, uint8_t *buffer)
 		int pgno, page, subpage, flags;
 		struct raw_page *curr;
 		cache_page *vtp;
-		int i;
+		int i, pass;
 
 		if ((page = vbi_unham16p (p)) < 0) {
 			vbi_teletext_desync(vbi);
@@ -2244,18 +2244,25 @@ vbi_decode_teletext(vbi_decoder *vbi, uint8_t *buffer)
 		/*
 		 *  Store page terminated by new header.
 		 */
-		while ((curr = vbi->vt.current)) {
+		for (pass = 0; pass < 2 && (curr = vbi->vt.current); ++pass) {
 			vtp = curr->page;
 
-			if (vtp->flags & C11_MAGAZINE_SERIAL && !(vtp->flags & C4_ERASE_PAGE)) {
-				if (vtp->pgno == pgno)
-					break;
+			if (0 == pass
+			    && curr != rvtp
+			    && vtp->flags & C11_MAGAZINE_SERIAL
+			    && !(vtp->flags & C4_ERASE_PAGE)) {
+				/* Serial mode: this header also ends the
+				   current page of another magazine. In the
+				   next pass we look at the page in progress
+				   in our own magazine. */
 			} else {
 				curr = rvtp;
 				vtp = curr->page;
 
 				if ((vtp->pgno & 0xFF) == page && !(vtp->flags & C4_ERASE_PAGE))
 					break;
+
+				pass = 1; /* last pass */
 			}
 
 			switch (vtp->function) {
@@ -2300,7 +2307,6 @@ vbi_decode_teletext(vbi_decoder *vbi, uint8_t *buffer)
 			}
 
 			vtp->function = PAGE_FUNCTION_DISCARD;
-			break;
 		}
 
 		/*
